@@ -223,6 +223,51 @@ fn strict_wording_witness() {
     witness("end");
 }
 
+/// found missing by seed C15g: a SetWithdrawAddress that is rolled back (it shares a batch with a
+/// failing message, or sits in a sub-message tree that fails) never happened: the next withdrawal pays the
+/// address that is on record.  Likewise one that is undone by a second, committed change.
+fn rolled_back_withdraw_address_change() {
+    use cosmwasm_std::{BankMsg, CosmosMsg, DistributionMsg};
+    use cw_multi_test::Executor;
+    let mut w = Stk::new(Cfg::default());
+    w.track_rewards = true;
+    w.fixed_amounts.push_back(STAKES_1[choose(3)] + 1);
+    setup_positions(&mut w, &[Op::Delegate { d: 0, v: 0 }]);
+    if !w.apply(&Op::Advance { dt: DtSel::Sym(1, 400 * 86_400) }, AMT) {
+        return;
+    }
+    let d0 = w.dels[0].clone();
+    let wd = w.accts[2].clone();
+    let set: CosmosMsg = DistributionMsg::SetWithdrawAddress { address: wd.to_string() }.into();
+    let bad: CosmosMsg = BankMsg::Send { to_address: wd.to_string(), amount: vec![cosmwasm_std::coin(1, "nonexistent")] }.into();
+    let before = crate::util::snapshot(&w.app);
+    let variant = choose(2);
+    let r = catch(|| match variant {
+        0 => w.app.execute_multi(d0.clone(), vec![set.clone(), bad.clone()]).map(|_| ()),
+        // the other order: the failing message first (nothing of the batch runs after it)
+        _ => w.app.execute_multi(d0.clone(), vec![bad.clone(), set.clone()]).map(|_| ()),
+    });
+    match r {
+        Err(p) => {
+            failure("no_panic", "panic", p);
+            return;
+        }
+        Ok(Ok(())) => {
+            check_native("failing_batch_fails", false, || "ok".into());
+            return;
+        }
+        Ok(Err(_)) => {}
+    }
+    crate::util::check_unchanged("failed_batch_leaves_storage_unchanged", &w.app, &before);
+    witness("address_change_rolled_back");
+    // the ledger still says: rewards of D1 go to D1
+    if !w.apply(&Op::Withdraw { d: 0, v: 0 }, AMT) {
+        return;
+    }
+    w.check_balances("after_rolled_back_address_change_");
+    witness("end");
+}
+
 pub fn scenarios(tier: &str) -> Vec<Scenario> {
     let mut v = vec![];
     v.push(Scenario::new("partial_unbonding_matures_then_withdraw", &["withdraw_ok", "unbonding_paid", "end"], partial_unbonding_then_withdraw));
@@ -241,6 +286,7 @@ pub fn scenarios(tier: &str) -> Vec<Scenario> {
         accrual_cfg(1, Mode::TwoConcreteStakesSymbolicTime, false, cfg)
     }));
     v.push(Scenario::new("strict_wording_at_a_whole_token_ideal_stake_700800000_for_59_seconds", &["end"], strict_wording_witness));
+    v.push(Scenario::new("withdrawal_after_a_rolled_back_withdraw_address_change", &["address_change_rolled_back", "withdraw_ok", "end"], rolled_back_withdraw_address_change));
     v.push(Scenario::new("split_independence", &["end"], || split(true)));
     v.push(Scenario::new("split_independence_subsecond_block_times", &["end"], split_subsecond));
     if tier == "thorough" {
